@@ -311,7 +311,6 @@ func c12AddChain(r *Run) {
 		"SCTVersion": rn + ".SCTVersion",
 		"Timestamp":  rn + ".Timestamp",
 		"Extensions": "(*base64.Encoding).DecodeString(*" + rn + ".Extensions)#0",
-		"LogID":      "*new:ct.LogID#*",
 	})
 	// the signature is what the (gated) tls.Unmarshal of the response's signature decoded: through a
 	// local that is then stored into the SCT, or in place
@@ -320,18 +319,21 @@ func c12AddChain(r *Run) {
 	} else {
 		r.Fail("addChainWithRetry:sct.Signature", r.Where(ver), fmt.Sprintf("undecided: expected exactly one tls.Unmarshal in addChainWithRetry, found %d", len(um)))
 	}
-	for _, st := range r.StoresTo(fn, "&("+r.D.allocName(sct)+".LogID)") {
-		if id := baseAlloc(st.Val); id != nil {
-			found := false
-			for _, cp := range CallsTo(fn, "copy") {
-				if r.D.D(CallArgs(cp)[0]) == r.D.allocName(id)+".KeyID[:]" {
-					found = true
-					r.ExpectArg(cp, "addChainWithRetry:sct.LogID.source", 1, rn+".ID")
-					r.Check("addChainWithRetry:sct.LogID.filled-before-use", executesBefore(cp, st), r.Where(cp), "the ID is copied before the LogID is stored into the SCT")
-				}
-			}
-			r.Check("addChainWithRetry:sct.LogID.filled", found, r.Where(st), "LogID.KeyID is filled by copy from the response ID")
+	// LogID.KeyID of the verified SCT holds the response's ID: copied into the field itself, or into a
+	// zero ct.LogID local whose value (read after the copy) is what the LogID field is set to
+	var idCopies []ssa.CallInstruction
+	for _, cp := range CallsTo(fn, "copy") {
+		if a := CallArgs(cp); len(a) == 2 && glob("*.KeyID[:]", r.D.D(a[0])) {
+			idCopies = append(idCopies, cp)
 		}
+	}
+	if len(idCopies) != 1 {
+		r.Fail("addChainWithRetry:sct.LogID.filled", r.Where(ver), fmt.Sprintf("LogID.KeyID is filled by copy from the response ID: expected exactly one copy into a KeyID, found %d", len(idCopies)))
+	} else {
+		cp := idCopies[0]
+		c04CopyDst(r, fn, "addChainWithRetry:sct.LogID.filled", cp, r.D.allocName(sct), "LogID.KeyID")
+		r.ExpectArg(cp, "addChainWithRetry:sct.LogID.source", 1, rn+".ID")
+		r.Check("addChainWithRetry:sct.LogID.filled-before-use", executesBefore(cp, ver), r.Where(cp), "the ID is copied before the SCT is verified (and returned)")
 	}
 	// what is submitted is the chain that is verified
 	r.ExpectStores(fn, "addChainWithRetry:request.chain", "&("+r.D.allocName(req)+".Chain)", "append("+r.D.allocName(req)+".Chain, *)", 1)
